@@ -264,6 +264,17 @@ def decide(pid, cfg, tier, seed, args):
             for l in selftest_log:
                 if 'MISMATCH' in l or 'DOES NOT APPLY' in l:
                     unstable.append({"seed": "selftest", "failing": [l[:200]]})
+    # ---- thorough: dynamic fidelity check of the extraction rules on this property's units (assumption check)
+    fidelity = None
+    if tier == 'thorough' and not violations and not undecided and os.path.abspath(args.repo) == '/repo' and not os.environ.get('VX_IN_SELFTEST'):
+        fp = subprocess.run([os.path.join(VERIF, 'bin', 'fidelity')] + list(units), capture_output=True, text=True)
+        try:
+            fidelity = load_json(os.path.join(VERIF, 'build', 'fidelity', 'result.json'))
+            fidelity['substituted'] = len(fidelity.get('substituted', []))
+        except Exception:
+            fidelity = {"error": (fp.stdout + fp.stderr)[-800:]}
+        if fp.returncode != 0:
+            unstable.append({"seed": "fidelity", "failing": [(fp.stdout + fp.stderr)[-400:]]})
     # ---- report
     rc = 0
     os.makedirs(os.path.join(VERIF, 'replays'), exist_ok=True)
@@ -339,6 +350,7 @@ def decide(pid, cfg, tier, seed, args):
             "known_findings_reported": [k['what'] for k in known_reported],
             "unstable": unstable,
             "selftest": selftest_log,
+            "extraction_fidelity": fidelity,
             "bounded": [],
             "exhaustive": False,
         },
